@@ -73,6 +73,7 @@ static void m_reset(void) {
     }
     T_live = 1;
     g_probe_tbl = g_probe ? &T : NULL;
+    two_reset(galloc_get(0, 1));
 }
 
 static bool m_enabled(int op) {
@@ -81,6 +82,8 @@ static bool m_enabled(int op) {
 }
 
 static void invariant(void) {
+    two_check();
+    if (esx_failed) return;
     size_t cnt = aws_linked_hash_table_get_element_count(&T);
     ESX_CHECK(cnt == (size_t)nR, "element-count", "after %s: get_element_count() = %zu, reference has %d entries [%s]", g_opname, cnt, nR, show_ref());
     if (esx_failed) return;
@@ -198,12 +201,17 @@ static size_t m_canon(uint8_t *b, size_t cap) {
 static void m_teardown(void) {
     if (!T_live) return;
     T_live = 0;
-    if (esx_failed) return; /* the object may be damaged; galloc_reset() reclaims everything */
+    if (esx_failed) {
+        TB_live = 0;
+        return; /* the object may be damaged; galloc_reset() reclaims everything */
+    }
     g_probe_tbl = NULL; /* no lookups in a table that is being dismantled */
     op_begin("clean_up");
     for (int i = 0; i < nR; ++i) expect_displaced(R[i]);
     aws_linked_hash_table_clean_up(&T);
     check_deltas();
+    two_check();
+    two_teardown();
 }
 
 static struct esx_model model = {
@@ -218,11 +226,12 @@ struct cfg {
     int quick;   /* part of the quick tier */
     int nullk;   /* key k0 is passed as a NULL pointer */
     int probe;   /* the value destructor looks keys up (c18_common.h) */
+    int two;     /* the value destructor works on a second table (c18_common.h) */
 };
 /* The collision modes multiply the state count by the number of reachable slot layouts (x20 for four colliding keys), so
  * they run with two values; the spread mode runs the full alphabet. */
 static const struct cfg cfgs[] = {
-    {0, 0, 1, 4, 3, 1}, {3, 0, 1, 4, 3, 1}, {3, 1, 1, 3, 2, 1}, {3, 0, 1, 4, 3, 1, 1}, {3, 1, 1, 3, 2, 0, 1}, {3, 0, 1, 4, 3, 1, 0, 1}, {2, 1, 1, 3, 2, 0, 0, 1},
+    {0, 0, 1, 4, 3, 1}, {3, 0, 1, 4, 3, 1}, {3, 1, 1, 3, 2, 1}, {3, 0, 1, 4, 3, 1, 1}, {3, 1, 1, 3, 2, 0, 1}, {3, 0, 1, 4, 3, 1, 0, 1}, {2, 1, 1, 3, 2, 0, 0, 1}, {3, 0, 1, 4, 3, 1, 0, 0, 1},
     {1, 0, 1, 4, 3, 0}, {2, 0, 1, 4, 3, 0},
     {0, 0, 8, 4, 3, 0}, {3, 0, 8, 4, 3, 0},
     {0, 1, 1, 4, 2, 0}, {3, 1, 1, 4, 2, 0}, {3, 1, 8, 3, 3, 0}, {3, 2, 1, 4, 2, 0}, {1, 2, 1, 3, 3, 0},
@@ -242,7 +251,8 @@ int main(int argc, char **argv) {
         g_nv = cfgs[c].nv;
         g_null_k = cfgs[c].nullk ? 0 : -1;
         g_probe = cfgs[c].probe;
-        snprintf(g_name, sizeof(g_name), "lht-d%s-h%d-i%zu-k%dv%d%s", dname[cfgs[c].dm], g_hmode, g_init_count, g_nk, g_nv, cfgs[c].nullk ? "-nullk" : cfgs[c].probe ? "-probe" : "");
+        g_two = cfgs[c].two;
+        snprintf(g_name, sizeof(g_name), "lht-d%s-h%d-i%zu-k%dv%d%s", dname[cfgs[c].dm], g_hmode, g_init_count, g_nk, g_nv, cfgs[c].nullk ? "-nullk" : cfgs[c].probe ? "-probe" : cfgs[c].two ? "-two" : "");
         model.name = g_name;
         build_ops();
         model.nops = nops;
